@@ -386,7 +386,7 @@ def r6_readonly(ctx: Ctx) -> None:
     raw = [s for s in stores if 'raw_key' in src(s.targets[0])]
     for s in raw:
         g = afl.cfg.guard_literals(s)
-        ok = any(truth and 'raw_key not in' in t for t, truth in g)
+        ok = any((not truth) and 'raw_key in' in t for t, truth in g)
         ctx.check(ok, 'C07.R6', at, 'raw-once', 'original value saved only if not already saved', f'{src(s)[:50]!r} overwrites the saved original', s)
 
 
